@@ -225,6 +225,31 @@ CHECKS["C15"] = dict(
          "to be read back and is not checked. Parse is not specified as a function on arbitrary token sequences (that is C20).",
     technique="TLA+ statement of the concrete syntax, TLC-enumerated table programs, replay through the real parser and printer")
 
+CHECKS["C08"] = dict(
+    category="model_checking",
+    text="Flat.tla states the bit-level flat encoding (term and type tags, 7-bit naturals, zig-zag integers, cons-bit lists, pre-aligned "
+         "255-byte chunked byte strings, final filler), the Plutus CBOR encoding of Data and the CBOR wrapping of scripts. MC_Flat "
+         "computes the bytes for every program of the syntax tables (all built-ins, constant types and nestings, string classes, Data tag "
+         "ranges, term constructors) plus chunk- and group-boundary cases; the real encoder must produce exactly these bytes (flat, CBOR, "
+         "hex) and the three decoders must read the specification's bytes back to the program; named / fake-named forms must agree. Random "
+         "programs: to_flat -> from_flat -> to_flat is the identity. The blueprint / hash / save-load histories are C18's (MC_Blueprint).",
+    design_ref="DESIGN.md section 6 C08, section 4.3",
+    note="Foreign-but-valid Data encodings (definite arrays, chunked bytes, non-compact tags) are not generated; addresses are not "
+         "recomputed. Hash = blake2b-224(version tag || code) is recomputed independently in C18.",
+    technique="TLA+ specification of the flat / CBOR encodings, TLC-computed expected bytes, replay through the real encoder and decoders")
+CHECKS["C20"] = dict(
+    category="model_checking",
+    text="Near-valid inputs are derived from the SPECIFICATION's own encodings (Flat.tla / UplcText.tla via TLC): every truncation, sampled "
+         "bit flips, control-byte substitutions and trailing garbage for the flat / CBOR decoders; token-level mutations, unknown names, "
+         "huge numerals and deep nesting for the UPLC text parser; field-level mutations of a real blueprint for JSON loading; token-level "
+         "mutations and deep nesting of generated Aiken sources for the lexer / parser / formatter. Every input runs under catch_unwind with "
+         "a per-input time limit: a panic, a hang or a killed process is a violation, and whatever decodes must survive its own encode / "
+         "decode. Parameter validation / application on near-miss data is C12's and C18's (same call sites).",
+    design_ref="DESIGN.md section 6 C20",
+    note="The expected Ok / Err class of a mutated input is not computed (Decode is not modelled): the oracle is 'value or error, no "
+         "crash, no hang' plus self-consistency. config.rs (aiken.toml) is not exercised.",
+    technique="mutations of spec-generated encodings replayed into the real decoders / parsers under catch_unwind and a watchdog")
+
 NOT_BUILT = "not built yet (machinery under construction, see DESIGN.md section 10)"
 
 
